@@ -6,6 +6,7 @@ import (
 	"fmt"
 	"os"
 	"path/filepath"
+	"strings"
 	"testing"
 
 	"github.com/ipld/go-storethehash/store/filecache"
@@ -40,7 +41,7 @@ type RLCase struct {
 }
 
 const c08Rule = "index.Index over the in-memory primary; caller contract as the store keeps it (Put only for absent keys, Update/Remove only for present keys; equal-length distinct keys of one bucket). " +
-	"Exhaustive part: universe {bucket} x S^3 with |S|=2: every ordered insertion of up to 5 (quick) / 6 (thorough) distinct keys followed by every single re-point, removal or further insertion, under three flush placements (never, after every op, once before the last op); |S|=3: all ordered insertions of up to 3 (quick) / 4 (thorough) keys. Random part: rapid sequences of <=80 set/remove/flush over alphabets of 2..256 symbols, key lengths 4..40, bits 8/9/16, with an operation that pushes the bucket out of the in-memory pools (two flushes carrying other buckets) so that it is read from disk afterwards; bulk part: 150-450 keys in the bucket (record lists of several KiB), flushed, pushed out, then read / re-pointed / removed from disk (oracle after flush and push-out operations and at the end). " +
+	"Exhaustive part: universe {bucket} x S^3 with |S|=2: every ordered insertion of up to 5 (quick) / 6 (thorough) distinct keys followed by every single re-point, removal or further insertion, under three flush placements (never, after every op, once before the last op); |S|=3: all ordered insertions of up to 3 (quick) / 4 (thorough) keys. Random part: rapid sequences of <=80 set/remove/flush over alphabets of 2..256 symbols, key lengths 4..40, bits 8/9/16, with an operation that pushes the bucket out of the in-memory pools (two flushes carrying other buckets) so that it is read from disk afterwards; bulk part: 150-450 keys in the bucket (record lists of several KiB), flushed, pushed out, then read / re-pointed / removed from disk (oracle after flush and push-out operations and at the end); boundary part: random cases run in an index of their own whose file-size limit is 1-4 bytes above the file length measured (first pass, unlimited file) before a drawn flush, so that the record list written by that flush starts within the last four bytes below the limit, followed by a push-out. " +
 	"oracle after EVERY operation: each present key resolves to its latest location; each absent key of the universe resolves to nothing or to the location of a present key; the decoded record list is strictly sorted, pairwise prefix-free, has one entry per present key, every stored prefix is a prefix of the key owning that location; Update changed only the addressed entry's location and Remove removed only the addressed entry. " +
 	"non-trivial = a list of >=3 entries in which a stored prefix was lengthened by a later insertion; distinct = distinct operation sequence"
 
@@ -410,6 +411,68 @@ func genRL(t *rapid.T) RLCase {
 	return c
 }
 
+// genRLLongStem: all keys of the bucket share a long stem (200..300 bytes), so
+// that the stored prefixes get long too. The record format keeps the length
+// of a stored prefix in one byte.
+func genRLLongStem(t *rapid.T) RLCase {
+	c := genRL(t)
+	if len(c.Ops) > 30 {
+		c.Ops = c.Ops[:30]
+	}
+	n := []int{200, 250, 252, 253, 254, 255, 256, 257, 300}[rapid.IntRange(0, 8).Draw(t, "stemlen")]
+	stem := make([]byte, n)
+	for i := range stem {
+		stem[i] = byte(7 + i%5)
+	}
+	if c.Bits == 9 {
+		stem[0] &^= 1 // bit 8 of the key belongs to the bucket number
+	}
+	for i, tl := range c.Tails {
+		c.Tails[i] = append(append(HexBytes{}, stem...), tl...)
+	}
+	return c
+}
+
+// longestShare returns the largest number of leading bytes that two keys of
+// the case have in common behind the bytes the index strips.
+func longestShare(c RLCase) int {
+	lead := (int(c.Bits)+7)/8 - int(c.Bits/8) // bytes of the bucket lead that stay in the stored key
+	best := 0
+	for i := range c.Tails {
+		for j := i + 1; j < len(c.Tails); j++ {
+			a, b := c.Tails[i], c.Tails[j]
+			n := 0
+			for n < len(a) && n < len(b) && a[n] == b[n] {
+				n++
+			}
+			if n+lead > best {
+				best = n + lead
+			}
+		}
+	}
+	return best
+}
+
+// runRLLong runs a long-stem case in an index of its own (a panic inside the
+// index may leave its locks held, so the index is dropped afterwards).
+func runRLLong(c RLCase) (st rlStats, v *Violation) {
+	e := &c08Env{bits: c.Bits, fileMax: 1 << 20}
+	e.reset()
+	v = guard(-1, "long-stem", func() *Violation {
+		var vv *Violation
+		st, vv = runRL(e, c)
+		return vv
+	})
+	if v != nil && strings.HasPrefix(v.Signature, "panic|") {
+		e.idx = nil
+	}
+	e.close()
+	if v != nil && longestShare(c) >= 255 {
+		v.Signature += "|keys-share-255-or-more-stored-bytes"
+	}
+	return st, v
+}
+
 // genRLBoundary: a random case with one of its flushes placed at the file-size
 // boundary, followed by a push-out so that the list is read from disk.
 func genRLBoundary(t *rapid.T) RLCase {
@@ -632,6 +695,45 @@ func TestC08(t *testing.T) {
 			cl = append(cl, fmt.Sprintf("boundary:list-starts-%d-below-limit", c.Boundary))
 		}
 		ev.Record(c, st.boundary && st.evicted && st.maxLen >= 2, cl...)
+		if v != nil && ev.Report(v, c) {
+			rt.Fatalf("%v", v)
+		}
+	})
+	if t.Failed() {
+		return
+	}
+	// Long-stem part: stored prefixes of 200..300 bytes.
+	overLimit := 0
+	setRapidChecks(budget(300, 1200))
+	rapid.Check(t, func(rt *rapid.T) {
+		if pastDeadline() {
+			ev.Skip()
+			return
+		}
+		c := genRLLongStem(rt)
+		cl := []string{"long-stem"}
+		if share := longestShare(c); share >= 255 {
+			// A known finding lives here (KF-C08): a few cases confirm that
+			// it is still there, the others are moved below the limit.
+			overLimit++
+			if overLimit > 6 {
+				cut := share - 254
+				for i := range c.Tails {
+					c.Tails[i] = c.Tails[i][cut:]
+				}
+				if c.Bits == 9 {
+					for i := range c.Tails {
+						c.Tails[i][0] &^= 1
+					}
+				}
+				cl = append(cl, "long-stem:moved-below-the-255-byte-limit(known finding excluded by construction)")
+			} else {
+				cl = append(cl, "long-stem:stored-prefix-over-255-bytes")
+			}
+		}
+		st, v := runRLLong(c)
+		cl = append(cl, fmt.Sprintf("long-stem:longest-shared-%d", min(longestShare(c)/10*10, 250)))
+		ev.Record(c, st.maxLen >= 2 && st.lengthened, cl...)
 		if v != nil && ev.Report(v, c) {
 			rt.Fatalf("%v", v)
 		}
